@@ -129,7 +129,8 @@ def shift_invert_typestate(ctx, rule='assembled-matrix-triangle-typestate'):
                 if deadb is not None and deadb >= 0:
                     for x in fn.walk(deadb):
                         dead.add(x['id'])
-        views = []   # (matrix name, triangle, transposed?, is destination)
+        views = []   # (matrix names, SOURCE triangle of the matrix that is read, does the result land in the opposite triangle?, node)
+        OPP = {'1': '2', '2': '1'}
         for x in fn.walk():
             if x['id'] in dead:
                 continue
@@ -137,15 +138,20 @@ def shift_invert_typestate(ctx, rule='assembled-matrix-triangle-typestate'):
                 tri = (x.get('targs') or ['?'])[0]
                 obj = fn.call_object(x)
                 names = set(m[1] for m in fn.mentions(obj) if m[0] in ('param', 'local'))
+                # a transpose BELOW the view (X.transpose().triangularView<T>()) reads the opposite triangle of X and lands in T;
+                # a transpose ABOVE the view (X.triangularView<T>().transpose()) reads T and lands in the opposite triangle
+                below = sum(1 for y in fn.walk(obj) if y['k'] == 'CXXMemberCallExpr' and y.get('callee') in ('transpose', 'adjoint')) % 2 == 1
                 par = fn.node(fn.parent.get(x['id'], -1))
                 while par is not None and par['k'] in ('ImplicitCastExpr', 'MaterializeTemporaryExpr', 'ExprWithCleanups', 'MemberExpr', 'CXXBindTemporaryExpr'):
-                    if par['k'] == 'MemberExpr' and par.get('member') == 'transpose':
+                    if par['k'] == 'MemberExpr' and par.get('member') in ('transpose', 'adjoint'):
                         break
                     par = fn.node(fn.parent.get(par['id'], -1))
-                transposed = par is not None and par['k'] == 'MemberExpr' and par.get('member') in ('transpose', 'adjoint')
-                views.append((names, tri, transposed, x))
+                above = par is not None and par['k'] == 'MemberExpr' and par.get('member') in ('transpose', 'adjoint')
+                src_tri = OPP.get(tri, tri) if below else tri
+                dst_tri = OPP.get(tri, tri) if above else tri
+                views.append((names, src_tri, dst_tri, x))
         written = None
-        for names, tri, tr, x in views:
+        for names, tri, dst, x in views:
             if 'mat' in names or (names and not (names & {A, B})):
                 # destination view of the local matrix
                 written = tri
@@ -154,7 +160,7 @@ def shift_invert_typestate(ctx, rule='assembled-matrix-triangle-typestate'):
             problems.append('%d factorization calls' % len(comp))
         if asp == '1' and bsp == '1':
             # both sparse: full symmetric matrices are built from the named triangles
-            for names, tri, tr, x in views:
+            for names, tri, dst, x in views:
                 for m in (A, B):
                     if m in names and tri != want[m]:
                         problems.append('%s is read through %s, not %s' % (m, NAMES.get(tri, tri), NAMES.get(want[m])))
@@ -169,15 +175,15 @@ def shift_invert_typestate(ctx, rule='assembled-matrix-triangle-typestate'):
                 if want[dense_first] != written:
                     problems.append('triangle %s of the local matrix is written from %s, whose option is %s' % (NAMES.get(written), dense_first, NAMES.get(want[dense_first])))
                 other = B if dense_first == A else A
-                ov = [(tri, tr) for names, tri, tr, x in views if other in names]
+                ov = [(tri, dst) for names, tri, dst, x in views if other in names]
                 if len(ov) != 1:
                     problems.append('%d live views of %s (expected 1)' % (len(ov), other))
                 else:
-                    tri, tr = ov[0]
+                    tri, dst = ov[0]
                     if tri != want[other]:
-                        problems.append('%s is read through %s, not through its own option %s' % (other, NAMES.get(tri, tri), NAMES.get(want[other])))
-                    if tr != (tri != written):
-                        problems.append('%s contribution (%s) is %stransposed into the %s triangle' % (other, NAMES.get(tri), '' if tr else 'not ', NAMES.get(written)))
+                        problems.append('the %s triangle of %s is read, but its option is %s' % (NAMES.get(tri, tri), other, NAMES.get(want[other])))
+                    if dst != written:
+                        problems.append('%s contribution lands in the %s triangle but %s is assembled and factorized' % (other, NAMES.get(dst, dst), NAMES.get(written)))
                 if comp:
                     args = fn.call_args(comp[0])
                     cv = args[1].get('cval') if len(args) >= 2 else None
